@@ -75,11 +75,15 @@ class Known:
             data = json.load(f)
         for uname, ud in data.get("universes", {}).items():
             m = {}
-            for sig, deltas in ud["sigs"].items():
+            for sig, val in ud["sigs"].items():
                 if sig not in self.by_sig:
                     continue  # only sigs that are listed as open findings suppress anything
-                for r in delta_decode(deltas):
-                    m[r] = sig
+                if isinstance(val, dict):
+                    for r, d in zip(delta_decode(val["r"]), val["d"]):
+                        m[r] = sig + "#" + d if d else sig
+                else:
+                    for r in delta_decode(val):
+                        m[r] = sig
             self._ranks[uname] = m
         self.checksums = {u: d.get("checksum") for u, d in data.get("universes", {}).items()}
 
@@ -90,7 +94,7 @@ class Known:
         if m is None:
             return None
         if m.get(rank) == sig:
-            fid = self.by_sig[sig]
+            fid = self.by_sig[sig.split("#")[0]]
             self.seen[fid] = self.seen.get(fid, 0) + 1
             return fid
         return None
@@ -109,9 +113,17 @@ class Known:
                 return fid
         return None
 
+    def undecided_seen(self):
+        ids = {e["id"] for e in self.entries if e.get("disposition") == "undecided"}
+        return sum(v for k, v in self.seen.items() if k in ids)
+
     def report_lines(self):
         lines = []
         for e in self.entries:
+            if e.get("disposition") == "undecided":
+                # a disagreement with the independent oracle that could not be adjudicated from the
+                # specification text: a rank-exact DOMAIN EXCLUSION, not claimed as a finding
+                continue
             n = self.seen.get(e["id"], 0)
             lines.append(f"KNOWN-FINDING: property={self.prop} {e['id']} {e['title']} (seen {n} times this run)")
         return lines
